@@ -112,6 +112,25 @@ def run_impl(c):
     cfg_dir = None
     if c.get('cfg_dir') and not c['user_dir']:
         cfg_dir = real_mkdtemp(prefix='c19cfg')
+    # another Tor this application launched earlier and that keeps running throughout (its own temporary directory is none of this
+    # launch's business: it must still be there at the end, and go when *that* process ends)
+    by = None
+    by_ok = [True]
+    if c.get('bystander'):
+        by_log, by_holder, by_made = [], {}, []
+
+        def by_mkdtemp(*a, **kw):
+            d_ = real_mkdtemp(*a, **kw)
+            by_made.append(d_)
+            return d_
+        tempfile.mkdtemp = by_mkdtemp
+        try:
+            txtorcon.launch(make_reactor(by_log, by_holder), control_port=9251, socks_port=9250, tor_binary='/bin/true',
+                            connection_creator=lambda: defer.Deferred()).addErrback(lambda f: None)
+        finally:
+            tempfile.mkdtemp = real_mkdtemp
+        by_tmp = [p for p in by_made if os.path.basename(p).startswith('tortmp')]
+        by = (by_holder['pp'], by_holder['tr'], by_tmp[0] if by_tmp else None)
     tempfile.mkdtemp = watching_mkdtemp
     try:
         d = launch_it(c, cfg_dir, reactor, log, creator, user_dir)
@@ -207,14 +226,28 @@ def run_impl(c):
             for st in sims.values():
                 if st.held:
                     st.release(None, None)
-        trace.append(snapshot())
+        last = snapshot()
+        if by is not None and by[2] is not None:
+            if not os.path.isdir(by[2]):
+                last.append('bystander-tmpdir-gone-while-its-tor-runs')
+                by_ok[0] = False
+            by[1].exited = True
+            reason = Failure(error.ProcessTerminated(exitCode=0, signal=None))
+            by[0].processExited(reason)
+            by[0].processEnded(reason)
+            if os.path.isdir(by[2]):
+                last.append('bystander-tmpdir-left-after-its-tor-ended')
+                by_ok[0] = False
+                shutil.rmtree(by[2], ignore_errors=True)
+        trace.append(last)
     finally:
         cfg_kept = cfg_dir is None or os.path.isfile(os.path.join(cfg_dir, 'state'))
         for p in (tmpdir, user_dir, user_parent, cfg_dir):
             if p and os.path.isdir(p):
                 shutil.rmtree(p, ignore_errors=True)
     return {'steps': trace, 'launch': result[0] if result else 'pending',
-            'user_dir_kept': ((user_dir is None) or state['user'] or False) and cfg_kept}
+            # (directories that are not this launch's to remove: the caller's, and another running Tor's temporary one)
+            'user_dir_kept': ((user_dir is None) or state['user'] or False) and cfg_kept and by_ok[0]}
 
 
 def driver_lines(c):
@@ -540,6 +573,7 @@ def gen_cases(rng, tier):
         ud = rng.choice([False, False, False, True, 'fresh'])
         yield within_h({'user_dir': ud, 'timeout': rng.random() < 0.8, 'kill': rng.random() < 0.8, 'ops': seq,
                         'timeout_s': rng.choice([30, 30, 2, 2.0, 0.5, 0.25, 1]),     # (seconds; fractions of a second are seconds too)
+                        'bystander': rng.random() < 0.25,
                         'cfg_dir': (not ud) and rng.random() < 0.4})
     if tier != 'quick':
         multiset = [['out', LINE], ['conn', 0, True], ['ack', 0, True], ['ack', 0, True], ['prog', 0, 100], ['timeout'], ['exit', 0], ['when']]
